@@ -163,6 +163,11 @@ type TxnSpec struct {
 	// Touch: columns whose typed accessor the body obtains and only READS after its last step
 	// (allocates an update buffer that stays empty). The model ignores it.
 	Touch []int
+	// Prefilter: the body starts by narrowing its selection to nothing (WithValue(col, never) and
+	// Count) before its steps. Only generated for bodies without DeleteAt steps: txn.DeleteAt answers
+	// for the current selection, every other operation (QueryAt, inserts, all key operations) is
+	// independent of it. The model ignores it.
+	Prefilter int // 0 = none, otherwise 1 + index of the filtered column
 }
 
 func (s *Schema) renderStores(stores []Store) string {
@@ -219,6 +224,9 @@ func (s *Schema) renderTxn(t TxnSpec) string {
 		if t.Panic {
 			end = fmt.Sprintf("panic-after-step-%d (recovered by the caller)", t.FailAt)
 		}
+	}
+	if t.Prefilter > 0 {
+		parts = append([]string{"selection narrowed to nothing through " + s.Cols[t.Prefilter-1].Name}, parts...)
 	}
 	if len(t.Touch) > 0 {
 		var names []string
